@@ -27,7 +27,9 @@ Vocabulary (pure arithmetic on `len`, `push` on `ops`; `let w0 = old(w).wv(), w1
                                        `grew(old(w).wv(), final(w).wv())` on every writer fn (it holds on Ok and on Err, composes
                                        by itself: reflexive/transitive without lemmas, implied by emitted*/wunch/wrote)
     wrote(w0, w1, s: Seq<WOp>)         w1.ops == w0.ops + s (loops / variable-length structures);
-                                       `broadcast use crate::wspec::group_wrote;` gives nil / +emitted / +wrote / ==> grew
+                                       `broadcast use crate::wspec::group_wrote;` gives nil / +emitted / ==> grew;
+                                       concatenating two `wrote`s: call `lemma_wrote_wrote(a,b,c,s,t)` EXPLICITLY (it is
+                                       deliberately not broadcast: it loops the solver on any wrote(v,v,s) term)
 * "this function emits fields a, b, c":   `'[Cxx:fields] res is Ok ==> emitted3(old(w).wv(), final(w).wv(), a, b, c)'`
   or directly `final(w).wv().ops == old(w).wv().ops.push(a).push(b).push(c)`; nested structures: give the callee a
   `spec fn fields(self, ..) -> Seq<WOp>` and ensure `wrote(old, final, self.fields(..))`.
@@ -40,24 +42,47 @@ Vocabulary (pure arithmetic on `len`, `push` on `ops`; `let w0 = old(w).wv(), w1
   `Err(ValueTooLarge)` / `Err(UnsupportedWordSize(size))` in exactly the stated cases and `Ok ==> the value fits`.
 * Never call a plain integer primitive for an address / section offset: C18 is the statement that the log shows
   `WOp::Address/Offset/EhPointer/Reference/PatchOffset` for those fields and `U/Uleb/...` for everything else.
-* `wcore.ensure_dwehpe(ctx, sk)` / `wcore.ensure_section_id(ctx, sk)` are idempotent: call them instead of extracting
-  `impl DwEhPe` / `SectionId` yourself (they are already called by `wcore.populate`).
+* `wcore.ensure_section_id(ctx, sk)`, `wcore.ensure_structural(sk, 'common', 'Format')`, `wcore.ensure_dwehpe(ctx, sk)` are
+  idempotent: use them instead of extracting `SectionId` / `impl DwEhPe` / adding Structural yourself (SectionId and
+  Structural for Format+SectionId are already added by `wcore.populate`; `impl DwEhPe` only by `wreloc`).
+  `wcore.wsource(rel, ctx)` = `Source(rel, ctx)` for files with `#[cfg(debug_assertions)]` (write/mod.rs; evaluated TRUE).
+* `wspec::lemma_s2u_roundtrip` (ws field reads back through sign extension), `wspec::lemma_eh_format_arith`
+  (`& 0x0f` / `& 0x70` == `% 16` / `/ 16 % 8 * 16`), `lemma_emitted_wrote`.
 
 CONTENT
 -------
 Verified with real bodies (owners C09, C18): `Writer::{write_udata, write_sdata, write_udata_at, write_eh_pointer_data,
 write_initial_length, write_initial_length_at}`; `leb128::write::{Leb128::{unsigned, signed, bytes, len}, uleb128_size,
-sleb128_size}`, `low_bits_of_u64`; `DwEhPe::{format, application}`.
+sleb128_size}`, `low_bits_of_u64`.
 R-REQUIRED (contract assumed here; byte-level meaning proved by Kani group K-WPRIM on EndianVec, /verif/kani/src/wprim.rs):
 `write_u8..write_u128`, `write_u8_at..write_u128_at`, `write_uleb128`, `write_sleb128` (bodies build byte arrays through
 `Endianity::write_*` / `Leb128::bytes`), and the five relocatable methods `write_address`, `write_offset`,
 `write_offset_at`, `write_eh_pointer`, `write_reference` (implementations override them; their default "plain writer"
 bodies and the `RelocateWriter` overrides are verified in batch `wreloc`).
-Required in the source already: `write`, `write_at`, `len`, `endian` (contracts are assumptions on implementations).
-TRUSTED: nothing beyond core's. Dropped: `leb128::write::{unsigned, signed}` free fns and `Leb128::write` (std::io::Write).
+Required in the source already: `write`, `write_at`, `len`, `endian` (contracts are assumptions on implementations;
+checked on EndianVec by K-WPRIM `k_wprim_write_and_write_at`).
+TRUSTED: nothing beyond core's. `unsafe impl Structural for Format/SectionId {}` (field-less enums; see ensure_structural).
+Dropped: `leb128::write::{unsigned, signed}` free fns and `Leb128::write` (std::io::Write).
+
+TAGS (C09): w-bytes, w-bytes-at, w-fixed, w-fixed-at, w-leb, w-len, w-err-unch, w-frame (primitive layer, assumed);
+udata-fit / udata-too-large / udata-word-size, sdata-*, udata-at-* (Ok => fits and exactly that field; does not fit =>
+Err(ValueTooLarge); other size => Err(UnsupportedWordSize(size))); eh-data, eh-data-reject, eh-data-too-large;
+initial-length, initial-length-size, initial-length-at, initial-length-at-too-large, initial-length-at-reserved (FAILS);
+leb-size (uleb128_size / sleb128_size / Leb128::{unsigned,signed}.len / bytes().len all equal the closed-form size).
+(C18): w-address, w-offset, w-offset-at, w-eh-pointer, w-reference (event contracts, assumed).
+
+FINDING F-wcore-1 (genuine, C09; native/src/bin/f_wcore_1.rs): `write_initial_length_at(off, length, Dwarf32)` returns Ok
+for length in 0xffff_fff0..=0xffff_ffff, the range DWARF 5 section 7.4 reserves (0xffff_ffff = 64-bit escape); the bytes do not
+read back (`read_initial_length`: UnknownReservedLength / taken for DWARF64). `Error::InitialLengthOverflow` exists for
+this but no function returns it. Fix: `if format == Format::Dwarf32 && length >= 0xffff_fff0 { return
+Err(Error::InitialLengthOverflow) }` in write_initial_length_at. The clause [C09:initial-length-at-reserved] is only emitted
+by this batch's own build (`populate(.., findings=True)`), so that downstream batches stay quiet: `run.py wcore` exits 1
+with exactly that clause on the pinned tree.
+
 NOT DECIDED here: that `write`'s bytes for `Uleb/Sleb/U` fields are the DWARF encodings (K-WPRIM, K-LEB, K-PRIM);
 `Ok` is never guaranteed (an implementation's `write` may fail for its own reasons) - "ValueTooLarge exactly when the value
 does not fit" is proved as: does-not-fit ==> Err(ValueTooLarge), Ok ==> fits, and on EndianVec (K-WPRIM) fits ==> Ok.
+The byte content of `Leb128::bytes()` (only its length is specified in Verus; K-LEB proves the round trip for all u64/i64).
 """
 from lib import *
 from batches import core
